@@ -212,6 +212,8 @@ def wl_C13(rng, w, cfg, index):
         progs.append(prog_attrs(kit, 5 + j, 'x%d' % j, cfg))
     if rng.random() < 0.5:
         progs.append(prog_values(kit, 4, cfg))
+    if rng.random() < 0.4:
+        progs.append(prog_related(kit, 3, cfg))
 
     def program():
         if rng.random() < 0.5:
@@ -1256,3 +1258,37 @@ def prog_values(kit, actor, cfg):
             if g:
                 yield {'op': 'NEW', 'a': actor, 'doc': 'v%d' % j, 'c': {'name': name, 'value': default_value(name),
                                                                         'attrs': {spec.py_attr_name(a): rng.choice(g)}, 'xsd_check': True}}
+
+
+def prog_related(kit, actor, cfg):
+    """C13 actor built from the schema's derived/base simple-type pairs (a restriction of another named type):
+    first the *base* type is given a value that the derived type must reject, then a fresh element of the derived
+    type is offered the same value.  Its verdict alone in a pristine process is the reference (projection twin)."""
+    rng = kit.rng
+    pairs = []
+    for d, b in spec.derived_type_pairs():
+        pd, pb = spec.positions_of_type(d), spec.positions_of_type(b)
+        if pd and pb:
+            pairs.append((d, b, pd, pb))
+    if not pairs:
+        return
+    for j in range(rng.randint(1, 3)):
+        d, b, pd, pb = rng.choice(pairs)
+        gb, _bb = spec.exemplars(b)
+        gd, bd = spec.exemplars(d)
+        cands = [v for v in gb if not any(v == x and type(v) is type(x) for x in gd)]
+        cands += [v for v in bd if any(v == x and type(v) is type(x) for x in gb)]
+        if not cands:
+            continue
+        v = rng.choice(cands)
+        order = [('b', rng.choice(pb)), ('d', rng.choice(pd))]
+        if rng.random() < 0.2:
+            order.reverse()
+        for tag, pos in order:
+            doc = 'r%s%d' % (tag, j)
+            if pos[0] == 'value':
+                yield {'op': 'NEW', 'a': actor, 'doc': doc, 'c': {'name': pos[1], 'value': v, 'attrs': {}, 'xsd_check': True}}
+            else:
+                yield {'op': 'NEW', 'a': actor, 'doc': doc, 'c': {'name': pos[1], 'value': default_value(pos[1]), 'attrs': {}, 'xsd_check': True}}
+                if doc in kit.w.docs:
+                    yield {'op': 'ATTR_SET', 'a': actor, 'p': [doc], 'name': spec.py_attr_name(pos[2]), 'value': v}
